@@ -100,3 +100,584 @@ Qed.
 Lemma neutralM_yield_state s :
   (match s with CheckingForUpdates _ | WaitingForReboot | Idle => False | _ => True end) -> neutralM (yield_state s).
 Proof. intro H. unfold yield_state. apply neutralM_emit. intro q. destruct s; try contradiction; reflexivity. Qed.
+
+(* ---------- builders made for a check with parameters p ---------- *)
+Definition euc_ok (p : params) (e : entry) : Prop := e_uc e = None \/ e_uc e = Some (p_disable p, p_samever p).
+
+Lemma iam_uc p es a f :
+  Forall (euc_ok p) es -> (forall e, euc_ok p e -> euc_ok p (f e)) -> euc_ok p (f (entry_new a)) ->
+  Forall (euc_ok p) (insert_and_modify es a f).
+Proof.
+  intros Hes Hf Hn. induction Hes as [|e r He Hr IH]; cbn [insert_and_modify].
+  - constructor; [exact Hn|constructor].
+  - destruct (bytes_eqb (a_id (e_app e)) (a_id a)); constructor; auto.
+Qed.
+
+Lemma apply_op_uc p es o : Forall (euc_ok p) es -> Forall (euc_ok p) (apply_op p es o).
+Proof.
+  intro H. destruct o; cbn [apply_op]; apply iam_uc; try assumption;
+    try (intros e He; unfold euc_ok in *; cbn [e_uc]; tauto);
+    try (unfold euc_ok; cbn [e_uc entry_new]; tauto).
+Qed.
+
+Lemma fold_ops_uc p ops : forall es, Forall (euc_ok p) es -> Forall (euc_ok p) (fold_left (apply_op p) ops es).
+Proof. induction ops as [|o r IH]; intros es H; cbn [fold_left]; [exact H|]. apply IH. apply apply_op_uc. exact H. Qed.
+
+Lemma add_ops_uc p ops : Forall (euc_ok p) (b_entries (add_ops (builder_new p) ops)).
+Proof. unfold add_ops, builder_new. cbn [b_entries b_params]. apply fold_ops_uc. constructor. Qed.
+
+Definition wire_of (cfg : config) (b : builder) (uri : bytes) : wire :=
+  {| w_uri := uri; w_headers := headers_of cfg b; w_body := body_of cfg b; w_sum := summary_of b |}.
+
+Lemma ia1 : bytes_eqb (s2b "content-type") (s2b "x-goog-update-interactivity") = false.
+Proof. vm_compute. reflexivity. Qed.
+Lemma ia2 : bytes_eqb (s2b "x-goog-update-updater") (s2b "x-goog-update-interactivity") = false.
+Proof. vm_compute. reflexivity. Qed.
+Lemma ia3 : bytes_eqb (s2b "x-goog-update-interactivity") (s2b "x-goog-update-interactivity") = true.
+Proof. vm_compute. reflexivity. Qed.
+
+Lemma interactivity_builder cfg b : interactivity_ok (p_source (b_params b)) (headers_of cfg b) = true.
+Proof.
+  unfold interactivity_ok, headers_of. cbn [List.app existsb fst snd].
+  rewrite ia1, ia2, ia3. cbn [andb orb]. rewrite bytes_eqb_refl. reflexivity.
+Qed.
+
+Lemma http_ok_builder p cfg b uri :
+  b_params b = p -> Forall (euc_ok p) (b_entries b) -> http_ok p (wire_of cfg b uri) = true.
+Proof.
+  intros Hp Huc. unfold http_ok, wire_of. cbn [w_sum w_headers summary_of ws_source ws_apps].
+  rewrite Hp. destruct (p_source p) eqn:Es; cbn [isource_eqb andb];
+    (rewrite <- Es, <- Hp, interactivity_builder; cbn [andb];
+     rewrite forallb_forall; intros wa Hin; apply in_map_iff in Hin as (e & <- & He); cbn [wa_uc];
+     rewrite Forall_forall in Huc; destruct (Huc e He) as [->| ->]; cbn [obool_pair_ok]; [reflexivity|];
+     rewrite Hp, !Bool.eqb_reflx; reflexivity).
+Qed.
+
+(* ping builders: only OpPing operations *)
+Definition ping_entry (e : entry) : Prop := e_uc e = None /\ e_events e = [].
+Lemma fold_ping_ops p apps : forall es, Forall ping_entry es -> Forall ping_entry (fold_left (apply_op p) (map OpPing apps) es).
+Proof.
+  induction apps as [|a r IH]; intros es H; cbn [map fold_left]; [exact H|]. apply IH. cbn [apply_op].
+  induction H as [|e r' He Hr IH']; cbn [insert_and_modify].
+  - constructor; [split; reflexivity|constructor].
+  - destruct (bytes_eqb (a_id (e_app e)) (a_id a)); constructor; auto.
+Qed.
+Lemma ping_ok_builder cfg apps uri b :
+  b_params b = ping_params -> b_entries b = b_entries (add_ops (builder_new ping_params) (map OpPing apps)) ->
+  ping_ok (wire_of cfg b uri) = true.
+Proof.
+  intros Hp He. unfold ping_ok, wire_of. cbn [w_sum w_headers summary_of ws_source ws_apps].
+  rewrite Hp. cbn [p_source ping_params isource_eqb andb].
+  replace ScheduledTask with (p_source (b_params b)) at 1 by (rewrite Hp; reflexivity).
+  rewrite interactivity_builder. cbn [andb].
+  rewrite forallb_forall. intros wa Hin. apply in_map_iff in Hin as (e & <- & Hin). cbn [wa_uc wa_events].
+  rewrite He in Hin. unfold add_ops, builder_new in Hin. cbn [b_entries b_params] in Hin.
+  pose proof (fold_ping_ops ping_params apps [] (Forall_nil _)) as HF. rewrite Forall_forall in HF.
+  destruct (HF e Hin) as [-> ->]. reflexivity.
+Qed.
+
+(* with_ids keeps params and entries *)
+Definition same_core (b b' : builder) : Prop := b_params b' = b_params b /\ b_entries b' = b_entries b.
+
+Lemma T_silent_val {A} (m : M A) (P : ph5 -> Prop) (R : A -> Prop) :
+  silent m -> (forall e a, fst (m e) = Some a -> R a) -> T P m (fun a q => P q /\ R a).
+Proof.
+  intros Hs Hr q0 e q Hq Hp. exists q. split; [unfold mst; rewrite Hs; exact Hq|].
+  destruct (fst (m e)) eqn:E; [split; [exact Hp|eapply Hr; exact E]|exact I].
+Qed.
+
+Lemma silent_with_ids b s r : silent (with_ids b s r).
+Proof. unfold with_ids. apply silent_bind; [apply silent_canon_guid|intro]. apply silent_bind; [apply silent_canon_guid|intro]. apply silent_ret. Qed.
+
+Lemma with_ids_core b s r e b' : fst (with_ids b s r e) = Some b' -> same_core b b'.
+Proof.
+  unfold with_ids, bind, ret. destruct (canon_guid s e) as [[cs|] e1] eqn:E1; [|discriminate].
+  destruct (canon_guid r e1) as [[cr|] e2] eqn:E2; [|discriminate].
+  cbn [fst]. intro H. inversion H. split; reflexivity.
+Qed.
+
+Lemma T_maybe_ids (c : bool) b s r P :
+  T P (if c then with_ids b s r else ret b) (fun b' q => P q /\ same_core b b').
+Proof.
+  destruct c.
+  - apply T_silent_val; [apply silent_with_ids|]. intros e a H. eapply with_ids_core; exact H.
+  - apply triple_ret. intros q Hq. split; [exact Hq|split; reflexivity].
+Qed.
+
+(* ---------- do_omaha_request ---------- *)
+Definition req_allowed (q1 : ph5) (cfg : config) (b : builder) : Prop :=
+  match q1 with
+  | P5Check p _ => http_ok p (wire_of cfg b []) = true
+  | P5Reboot _ => ping_ok (wire_of cfg b []) = true
+  | _ => False
+  end.
+
+Lemma http_ok_uri p cfg b u1 u2 : http_ok p (wire_of cfg b u1) = http_ok p (wire_of cfg b u2).
+Proof. reflexivity. Qed.
+Lemma ping_ok_uri cfg b u1 u2 : ping_ok (wire_of cfg b u1) = ping_ok (wire_of cfg b u2).
+Proof. reflexivity. Qed.
+
+Lemma T_do_req q1 b m :
+  req_allowed q1 (m_cfg m) b ->
+  T (fun q => q = q1) (do_omaha_request b m) (fun _ q => q = q1).
+Proof.
+  intro Hok. unfold do_omaha_request.
+  destruct (negb (u_valid (m_url m))); [apply triple_ret; auto|].
+  destruct (negb (headers_ok (m_cfg m) b)).
+  { eapply triple_bind; [|intro; apply triple_ret; intros q Hq; exact Hq].
+    destruct (m_cup m); [|apply triple_ret; auto].
+    eapply triple_bind; [apply (neutralM_silent _ silent_fresh_nonce)|]. intro. apply triple_ret. auto. }
+  eapply triple_bind with (R := fun _ q => q = q1).
+  { destruct (m_cup m).
+    - eapply triple_bind; [apply (neutralM_silent _ silent_fresh_nonce)|]. intro. apply triple_ret. auto.
+    - apply triple_ret. auto. }
+  intro uri.
+  eapply triple_bind; [apply (neutralM_silent _ silent_pop_http)|]. intro o.
+  eapply triple_bind with (R := fun _ q => q = q1).
+  { apply triple_emit. intros q ->. exists q1. split; [|reflexivity].
+    change {| w_uri := uri; w_headers := headers_of (m_cfg m) b; w_body := body_of (m_cfg m) b; w_sum := summary_of b |}
+      with (wire_of (m_cfg m) b uri).
+    destruct q1; cbn [req_allowed] in Hok; try contradiction; cbn [step5].
+    - rewrite (http_ok_uri _ _ _ uri []), Hok. reflexivity.
+    - rewrite (ping_ok_uri _ _ uri []), Hok. reflexivity. }
+  intros _. destruct o as [k|status ra authentic bd]; [apply triple_ret; auto|].
+  destruct (match m_cup m with Some _ => negb authentic | None => false end); [apply triple_ret; auto|].
+  eapply triple_bind with (R := fun _ q => q = q1).
+  { destruct (oZ_eqb (ps_poll (m_ps m)) (parse_retry_after ra)); [apply triple_ret; auto|].
+    eapply triple_bind; [apply (neutralM_emit (AEvent (EvProtocol _))); intro; reflexivity|]. intro.
+    eapply triple_bind; [apply neutralM_ctx_persist|]. intro.
+    eapply triple_bind; [apply neutralM_st_write|]. intro. apply triple_ret. auto. }
+  intro m'. destruct ((200 <=? status)%N && (status <? 300)%N); apply triple_ret; auto.
+Qed.
+
+(* ---------- helpers ---------- *)
+Lemma T_pre_pure {A} (P : ph5 -> Prop) (phi : Prop) (m : M A) Q :
+  (phi -> T P m Q) -> T (fun q => P q /\ phi) m Q.
+Proof. intros H q0 e q Hq [Hp Hphi]. exact (H Hphi q0 e q Hq Hp). Qed.
+
+Definition Keep (q1 : ph5) : ph5 -> Prop := fun q => q = q1.
+
+Lemma T_keep {A} (m : M A) q1 : neutralM m -> T (Keep q1) m (fun _ => Keep q1).
+Proof. intro H. apply (H (Keep q1)). Qed.
+
+Ltac keepn H := eapply triple_bind; [apply (T_keep _ _ H)|intro].
+Tactic Notation "keepas" constr(H) "as" ident(x) := eapply triple_bind; [apply (T_keep _ _ H)|intro x].
+
+Lemma builder_params_add p ops : b_params (add_ops (builder_new p) ops) = p.
+Proof. reflexivity. Qed.
+
+Lemma req_allowed_check p ps cfg ops b :
+  same_core (add_ops (builder_new p) ops) b -> req_allowed (P5Check p ps) cfg b.
+Proof.
+  intros [Hp He]. cbn [req_allowed]. apply http_ok_builder.
+  - rewrite Hp. reflexivity.
+  - rewrite He. apply add_ops_uc.
+Qed.
+
+(* a request built from ops for parameters p, inside a check allowed with p *)
+Lemma T_request_in_check p ps ops sess req m :
+  T (Keep (P5Check p ps))
+    (b <- (if u_valid (m_url m) && headers_ok (m_cfg m) (add_ops (builder_new p) ops)
+           then with_ids (add_ops (builder_new p) ops) sess req else ret (add_ops (builder_new p) ops)) ;;
+     do_omaha_request b m)
+    (fun _ => Keep (P5Check p ps)).
+Proof.
+  eapply triple_bind; [apply T_maybe_ids|]. intro b. apply T_pre_pure. intro Hc.
+  apply T_do_req. eapply req_allowed_check. exact Hc.
+Qed.
+
+Lemma T_report_event p ps ev apps sess nv dur m :
+  T (Keep (P5Check p ps)) (report_event p ev apps sess nv dur m) (fun _ => Keep (P5Check p ps)).
+Proof.
+  unfold report_event. keepn (neutralM_silent _ silent_fresh_guid).
+  eapply triple_bind; [apply T_maybe_ids|]. intro b.
+  eapply triple_bind.
+  { apply T_pre_pure. intro Hc. apply T_do_req. eapply req_allowed_check. exact Hc. }
+  intros [m' [e|bd]].
+  - keepn (neutralM_report (MOmahaEventLost ev)). apply triple_ret. auto.
+  - apply triple_ret. auto.
+Qed.
+
+Lemma T_attempt_loop p ps ops sess fuel : forall attempt m,
+  T (Keep (P5Check p ps)) (attempt_loop fuel attempt (add_ops (builder_new p) ops) sess m) (fun _ => Keep (P5Check p ps)).
+Proof.
+  induction fuel as [|f IH]; intros attempt m; cbn [attempt_loop]; [apply triple_halt|].
+  keepn neutralM_now. keepn (neutralM_silent _ silent_fresh_guid).
+  eapply triple_bind; [apply T_maybe_ids|]. intro b.
+  eapply triple_bind.
+  { apply T_pre_pure. intro Hc. apply T_do_req. eapply req_allowed_check. exact Hc. }
+  intros [m1 res].
+  keepn neutralM_now.
+  eapply triple_bind with (R := fun _ => Keep (P5Check p ps)).
+  { destruct (mono a <=? mono a1); [apply (T_keep _ _ (neutralM_report _))|apply triple_ret; auto]. }
+  intros _. destruct res as [e|bd]; [|apply triple_ret; auto].
+  match goal with |- T _ (if ?c then _ else _) _ => destruct c end.
+  - keepn (neutralM_yield_state ErrorCheckingForUpdate I). apply triple_ret. auto.
+  - keepn (neutralM_silent _ silent_pop_backoff).
+    keepn (neutralM_emit (ATimer (WFor (randomize (Z.shiftl 1 (attempt - 1) * 1000) 1000 a2 * 1000000))) (fun q => eq_refl)).
+    apply IH.
+Qed.
+
+(* ---------- perform_update_check ---------- *)
+Definition post_check (p : params) (r : sm * (check_err + (list app_response * reboot))) (q : ph5) : Prop :=
+  exists ps, q = P5Check p ps /\
+    (forall rs plan, snd r = inr (rs, RebootNeeded plan) -> exists pl, ps = Installed pl true (Some true)).
+
+Lemma post_check_inl p ps m e : post_check p (m, inl e) (P5Check p ps).
+Proof. exists ps. split; [reflexivity|]. intros rs plan H. discriminate. Qed.
+Lemma post_check_not_needed p ps m rs : post_check p (m, inr (rs, RebootNotNeeded)) (P5Check p ps).
+Proof. exists ps. split; [reflexivity|]. intros rs' plan H. cbn in H. inversion H. Qed.
+
+Ltac ret_post := apply triple_ret; intros q Hq; unfold Keep in Hq; subst q;
+                 first [apply post_check_inl | apply post_check_not_needed].
+
+Lemma T_perform fuel p apps m :
+  T (Keep (P5Check p NoPlan)) (perform_update_check fuel p apps m) (post_check p).
+Proof.
+  unfold perform_update_check.
+  eapply triple_bind with (R := fun _ => Keep (P5Check p NoPlan)).
+  { apply triple_emit. intros q ->. exists (P5Check p NoPlan). split; [|reflexivity].
+    cbn [step5]. destruct (p_source p); reflexivity. }
+  intros _. keepn (neutralM_report_check_interval (p_source p) m).
+  keepn (neutralM_silent _ silent_fresh_guid).
+  eapply triple_bind; [apply T_attempt_loop|]. intros [[m1 attempts] res].
+  keepn (neutralM_report (MRequestsPerCheck attempts (match res with inr _ => true | inl _ => false end))).
+  destruct res as [e|[d|]].
+  - ret_post.
+  - (* parsed document *)
+    keepn (neutralM_emit (AEvent (EvServerResponse d)) (fun q => eq_refl)).
+    destruct (filter SM.uc_ok (d_apps d)) as [|wu0 wur] eqn:Hwu.
+    + keepn (neutralM_yield_state NoUpdateAvailable I). ret_post.
+    + keepn (neutralM_silent _ silent_pop_plan).
+      eapply triple_bind with (R := fun _ => Keep (P5Check p NoPlan)).
+      { apply triple_emit. intros q ->. exists (P5Check p NoPlan). split; reflexivity. }
+      intros _. match goal with |- T _ (match ?pl with _ => _ end) _ => destruct pl as [plan|] end.
+      2:{ keepn (neutralM_yield_state InstallingUpdate I). keepn (neutralM_yield_state InstallationError I).
+          eapply triple_bind; [apply T_report_event|]. intro. ret_post. }
+      keepn (neutralM_silent _ silent_pop_can_start).
+      match goal with |- T _ (bind (emit (APolicy _ (PUDecision ?d))) _) _ => rename d into dec end.
+      eapply triple_bind with (R := fun _ => Keep (P5Check p (match dec with UOk => Approved plan | _ => NoPlan end))).
+      { apply triple_emit. intros q ->. eexists. split; reflexivity. }
+      intros _. destruct dec.
+      * (* UOk *)
+        keepn (neutralM_yield_state InstallingUpdate I).
+        eapply triple_bind; [apply T_report_event|]. intro m2.
+        keepas neutralM_now as t0.
+        keepn (neutralM_record_first_seen plan (wall t0)).
+        keepas (neutralM_silent _ silent_pop_perform) as pa.
+        eapply triple_bind with (R := fun _ => Keep (P5Check p (Installed plan true None))).
+        { apply triple_emit. intros q ->. eexists. split; [|reflexivity]. cbn [step5]. rewrite bytes_eqb_refl. reflexivity. }
+        intros _.
+        keepn (neutralM_iterM (fun bits => yield_ (EvProgress bits)) (pa_progress pa)
+                 (fun bits => neutralM_emit (AEvent (EvProgress bits)) (fun q => eq_refl))).
+        keepas neutralM_now as t1.
+        eapply triple_bind with (R := fun _ => Keep (P5Check p (Installed plan true None))).
+        { match goal with |- T _ (if ?c then _ else _) _ => destruct c end.
+          - match goal with |- T _ (bind (report ?x) _) _ => keepn (neutralM_report x) end. apply triple_ret. auto.
+          - apply triple_ret. auto. }
+        intro dur.
+        keepn (neutralM_silent _ silent_fresh_guid).
+        eapply triple_bind; [apply T_maybe_ids|]. intro b.
+        eapply triple_bind.
+        { apply T_pre_pure. intro Hc. apply T_do_req. eapply req_allowed_check. exact Hc. }
+        intros [m3 rr].
+        eapply triple_bind with (R := fun _ => Keep (P5Check p (Installed plan true None))).
+        { destruct rr; [|apply triple_ret; auto].
+          apply (T_keep _ _ (neutralM_iterM _ _ (fun x => neutralM_report _))). }
+        intros _.
+        eapply triple_bind with (R := fun _ => Keep (P5Check p (Installed plan true None))).
+        { match goal with |- T _ (match ?l with [] => _ | _ => _ end) _ => destruct l end;
+            [apply triple_ret; auto|apply T_report_event]. }
+        intro m4.
+        match goal with |- T _ (match ?n with O => _ | S _ => _ end) _ => destruct n as [|nerr] end.
+        -- (* no failed app *)
+           eapply triple_bind with (R := fun _ => Keep (P5Check p (Installed plan true None))).
+           { match goal with |- T _ (if ?c then _ else _) _ => destruct c end;
+               [apply (T_keep _ _ (neutralM_report _))|apply triple_ret; auto]. }
+           intros _. keepn (neutralM_st_set_time K_FINISH_TIME (wall t1)).
+           eapply triple_bind with (R := fun _ => Keep (P5Check p (Installed plan true None))).
+           { match goal with |- T _ (match ?x with Some _ => _ | None => _ end) _ => destruct x as [o|] end;
+               [|apply triple_ret; auto].
+             keepn (neutralM_st_write (SSetStr K_TARGET_VERSION (match o with Some v => v | None => s2b "UNKNOWN" end))).
+             apply triple_ret. auto. }
+           intros _. keepn (neutralM_st_write SCommit).
+           keepas (neutralM_silent _ silent_pop_reboot_needed) as rn.
+           eapply triple_bind with (R := fun _ => Keep (P5Check p (Installed plan true (Some rn)))).
+           { apply triple_emit. intros q ->. eexists. split; [|reflexivity]. cbn [step5]. rewrite bytes_eqb_refl. reflexivity. }
+           intros _. apply triple_ret. intros q ->. eexists. split; [reflexivity|].
+           intros rs pl H. cbn [snd] in H. destruct rn; inversion H. eexists. reflexivity.
+        -- (* some app failed: one installer-error event each, no reboot *)
+           eapply triple_bind with (R := fun _ q => exists c, q = P5Check p (Installed plan c None)).
+           { eapply triple_conseq;
+               [apply (triple_iterM step5 (fun _ : unit => yield_ EvInstallerError) (repeat tt (S nerr))
+                         (fun q => exists c, q = P5Check p (Installed plan c None)))| |].
+             - intros x _. apply triple_emit. intros q [c ->]. eexists. split; [reflexivity|]. exists false. reflexivity.
+             - intros q ->. exists true. reflexivity.
+             - intros u q H. exact H. }
+           intros _.
+           eapply triple_bind with (R := fun _ q => exists c, q = P5Check p (Installed plan c None)).
+           { apply (neutralM_yield_state InstallationError I (fun q => exists c, q = P5Check p (Installed plan c None))). }
+           intros _. apply triple_ret. intros q [c ->]. apply post_check_not_needed.
+      * (* UDeferred *)
+        eapply triple_bind; [apply T_report_event|]. intro.
+        keepn (neutralM_yield_state InstallationDeferredByPolicy I). ret_post.
+      * (* UDenied *)
+        eapply triple_bind; [apply T_report_event|]. intro. ret_post.
+  - (* unparseable body *)
+    keepn (neutralM_yield_state ErrorCheckingForUpdate I).
+    eapply triple_bind; [apply T_report_event|]. intro. ret_post.
+Qed.
+
+(* ---------- start_update_check ---------- *)
+Definition post_start (r : sm * reboot) (q : ph5) : Prop :=
+  exists ps, q = P5After ps /\ (forall plan, snd r = RebootNeeded plan -> exists pl, ps = Installed pl true (Some true)).
+
+Lemma T_start fuel p m :
+  T (Keep (P5Check p NoPlan)) (start_update_check fuel p m) post_start.
+Proof.
+  unfold start_update_check.
+  eapply triple_bind; [apply T_perform|]. intros [m1 res].
+  eapply triple_bind with
+    (R := fun fin q => exists ps, q = P5Check p ps /\
+                        (forall plan, snd fin = RebootNeeded plan -> exists pl, ps = Installed pl true (Some true))).
+  { destruct res as [e|[rs rb]].
+    - eapply triple_bind with (R := fun _ q => exists ps, q = P5Check p ps).
+      { eapply triple_conseq with (P' := fun q => exists ps, q = P5Check p ps) (Q' := fun _ q => exists ps, q = P5Check p ps).
+        - destruct e as [re| |].
+          + destruct re; apply triple_ret; auto.
+          + eapply triple_bind; [apply (neutralM_now (fun q => exists ps, q = P5Check p ps))|]. intro. apply triple_ret. auto.
+          + eapply triple_bind; [apply (neutralM_now (fun q => exists ps, q = P5Check p ps))|]. intro. apply triple_ret. auto.
+        - intros q (ps & -> & _). eauto.
+        - auto. }
+      intros [m2 reason].
+      eapply triple_bind; [apply (neutralM_report (MFailureReason reason) (fun q => exists ps, q = P5Check p ps))|]. intro.
+      apply triple_ret. intros q (ps & ->). exists ps. split; [reflexivity|]. intros plan H. discriminate.
+    - eapply triple_bind with (R := fun _ => post_check p (m1, inr (rs, rb))); [apply (neutralM_now (post_check p (m1, inr (rs, rb))))|]. intro n.
+      eapply triple_bind; [apply (neutralM_report _ (post_check p (m1, inr (rs, rb))))|]. intro.
+      eapply triple_bind with (R := fun _ => post_check p (m1, inr (rs, rb))).
+      { destruct (install_success rs); [apply neutralM_report_attempts_install|apply triple_ret; auto]. }
+      intro. apply triple_ret. intros q (ps & -> & H). exists ps. split; [reflexivity|].
+      intros plan Hp. cbn [snd] in Hp. subst rb. eapply H. reflexivity. }
+  intros [[m2 result] rb].
+  eapply triple_bind;
+    [apply (neutralM_emit (AEvent (EvSchedule (m_sched m2))) (fun q => eq_refl)
+              (fun q => exists ps, q = P5Check p ps /\ (forall plan, rb = RebootNeeded plan -> exists pl, ps = Installed pl true (Some true))))|].
+  intro.
+  eapply triple_bind;
+    [apply (neutralM_emit (AEvent (EvProtocol (m_ps m2))) (fun q => eq_refl)
+              (fun q => exists ps, q = P5Check p ps /\ (forall plan, rb = RebootNeeded plan -> exists pl, ps = Installed pl true (Some true))))|].
+  intro.
+  eapply triple_bind with (R := fun _ q => exists ps, q = P5After ps /\ (forall plan, rb = RebootNeeded plan -> exists pl, ps = Installed pl true (Some true))).
+  { apply triple_emit. intros q (ps & -> & H). exists (P5After ps). split; [reflexivity|]. exists ps. split; [reflexivity|exact H]. }
+  intro.
+  eapply triple_bind; [apply (neutralM_persist_data m2)|]. intro.
+  apply triple_ret. intros q H. exact H.
+Qed.
+
+(* ---------- waiting ---------- *)
+Lemma neutralM_update_next m (P : ph5 -> Prop) :
+  (forall q, P q -> match q with P5Check _ _ => False | _ => True end) ->
+  T P (update_next_update_time m) (fun _ q => P q).
+Proof.
+  intro Hp. unfold update_next_update_time.
+  eapply triple_bind; [apply (neutralM_silent _ silent_pop_next_time)|]. intro t.
+  eapply triple_bind with (R := fun _ q => P q).
+  { apply triple_emit. intros q Hq. exists q. split; [|exact Hq]. specialize (Hp q Hq). destruct q; try contradiction; reflexivity. }
+  intro. match goal with |- T _ (bind (yield_ ?ev) _) _ => eapply triple_bind; [apply (neutralM_emit (AEvent ev) (fun q => eq_refl))|] end.
+  intro. apply triple_ret. auto.
+Qed.
+
+Lemma neutralM_make_wait t : neutralM (make_wait t).
+Proof. unfold make_wait. destruct (t_min t); neu. Qed.
+
+Definition in_reboot (q : ph5) : Prop := exists l, q = P5Reboot l.
+
+Lemma T_ask_reboot src :
+  T in_reboot (ask_reboot_allowed src) (fun b q => q = P5Reboot (Some b)).
+Proof.
+  unfold ask_reboot_allowed.
+  eapply triple_bind; [apply (neutralM_silent _ silent_pop_reboot_allowed)|]. intro b.
+  eapply triple_bind with (R := fun _ q => q = P5Reboot (Some b)).
+  { apply triple_emit. intros q [l ->]. eexists. split; reflexivity. }
+  intro. apply triple_ret. auto.
+Qed.
+
+Lemma T_ping m : T in_reboot (ping_omaha m) (fun _ => in_reboot).
+Proof.
+  intros q0 e q Hq [l ->]. revert q0 e Hq.
+  change (forall q0 e, mst step5 q0 e = Some (P5Reboot l) -> exists q', mst step5 q0 (snd (ping_omaha m e)) = Some q' /\
+            match fst (ping_omaha m e) with Some _ => in_reboot q' | None => True end).
+  intros q0 e Hq.
+  assert (HT : T (Keep (P5Reboot l)) (ping_omaha m) (fun _ => Keep (P5Reboot l))).
+  { unfold ping_omaha.
+    keepn (neutralM_silent _ silent_fresh_guid). keepn (neutralM_silent _ silent_fresh_guid).
+    eapply triple_bind; [apply T_maybe_ids|]. intro b.
+    eapply triple_bind.
+    { apply T_pre_pure. intros [Hp He]. apply T_do_req. cbn [req_allowed].
+      apply (ping_ok_builder (m_cfg m) (m_apps m)); [rewrite Hp; reflexivity|rewrite He; reflexivity]. }
+    intros [m1 res].
+    destruct res as [er|[d|]].
+    - keepn (neutralM_persist_data (with_ps m1 (set_fails (m_ps m1) (sat_inc_u32 (ps_fails (m_ps m1)))))). apply triple_ret. auto.
+    - keepn neutralM_now.
+      match goal with |- T _ (bind (yield_ ?ev) _) _ => keepn (neutralM_emit (AEvent ev) (fun q => eq_refl)) end.
+      match goal with |- T _ (bind (persist_data ?x) _) _ => keepn (neutralM_persist_data x) end. apply triple_ret. auto.
+    - keepn (neutralM_persist_data (with_ps m1 (set_fails (m_ps m1) (sat_inc_u32 (ps_fails (m_ps m1)))))). apply triple_ret. auto. }
+  destruct (HT q0 e _ Hq eq_refl) as (q' & Hq' & Hr). exists q'. split; [exact Hq'|].
+  destruct (fst (ping_omaha m e)); [exists l; exact Hr|exact I].
+Qed.
+
+Lemma in_reboot_not_check q : in_reboot q -> match q with P5Check _ _ => False | _ => True end.
+Proof. intros [l ->]. exact I. Qed.
+
+Lemma T_reboot_loop fuel : forall src pending m,
+  T in_reboot (reboot_loop fuel src pending m) (fun _ q => q = P5Reboot (Some true)).
+Proof.
+  induction fuel as [|f IH]; intros src pending m; cbn [reboot_loop]; [apply triple_halt|].
+  eapply triple_bind with (R := fun _ => in_reboot).
+  { apply (neutralM_silent pop_stim). intro e. unfold pop_stim. destruct (e_stim e); reflexivity. }
+  intros [i|sc].
+  - destruct (nth_error pending i) as [[| |]|].
+    + (* a ping-wait timer *)
+      destruct (has_ping_roles (remove_nth i pending)); [apply IH|].
+      eapply triple_bind; [apply T_ping|]. intro m1.
+      eapply triple_bind; [apply (neutralM_update_next m1 in_reboot in_reboot_not_check)|]. intros [m2 t].
+      eapply triple_bind; [apply (neutralM_make_wait t in_reboot)|]. intro roles. apply IH.
+    + destruct (has_ping_roles (remove_nth i pending)); [apply IH|].
+      eapply triple_bind; [apply T_ping|]. intro m1.
+      eapply triple_bind; [apply (neutralM_update_next m1 in_reboot in_reboot_not_check)|]. intros [m2 t].
+      eapply triple_bind; [apply (neutralM_make_wait t in_reboot)|]. intro roles. apply IH.
+    + (* the reboot-question timer *)
+      eapply triple_bind; [apply T_ask_reboot|]. intros [|].
+      * apply triple_ret. auto.
+      * eapply triple_bind with (R := fun _ => in_reboot).
+        { apply triple_emit. intros q ->. eexists. split; [reflexivity|]. eexists. reflexivity. }
+        intro. apply IH.
+    + apply IH.
+  - eapply triple_bind with (R := fun _ => in_reboot).
+    { apply (neutralM_silent next_ctl). intro e. reflexivity. }
+    intro id.
+    eapply triple_bind; [apply (neutralM_emit (AReply id AlreadyRunning) (fun q => eq_refl))|]. intro.
+    destruct sc.
+    + eapply triple_bind; [apply T_ask_reboot|]. intros [|].
+      * apply triple_ret. auto.
+      * eapply triple_conseq; [apply IH|intros q ->; eexists; reflexivity|auto].
+    + apply IH.
+Qed.
+
+Lemma T_wait_for_reboot fuel src m :
+  T (Keep (P5Reboot None)) (wait_for_reboot fuel src m) (fun _ q => q = P5After NoPlan).
+Proof.
+  unfold wait_for_reboot.
+  eapply triple_bind with (R := fun b q => q = P5Reboot (Some b)).
+  { eapply triple_conseq; [apply (T_ask_reboot src)|intros q ->; eexists; reflexivity|auto]. }
+  intro ok.
+  eapply triple_bind with (R := fun _ q => q = P5Reboot (Some true)).
+  { destruct ok; [apply triple_ret; auto|].
+    eapply triple_bind with (R := fun _ => in_reboot).
+    { apply triple_emit. intros q ->. eexists. split; [reflexivity|]. eexists. reflexivity. }
+    intro.
+    eapply triple_bind; [apply (neutralM_update_next m in_reboot in_reboot_not_check)|]. intros [m1 t].
+    eapply triple_bind; [apply (neutralM_make_wait t in_reboot)|]. intro roles.
+    apply T_reboot_loop. }
+  intro m1.
+  eapply triple_bind; [apply (neutralM_silent _ silent_pop_reboot)|]. intro okr.
+  eapply triple_bind with (R := fun _ q => q = P5After NoPlan).
+  { apply triple_emit. intros q ->. eexists. split; reflexivity. }
+  intro. apply triple_ret. auto.
+Qed.
+
+(* ---------- the outer loop ---------- *)
+Lemma silent_do_outer_select roles : silent (do_outer_select roles).
+Proof. intro e. unfold do_outer_select. destruct (outer_select (e_stim e) roles (e_ctl e)) as [[[x r] c]|]; reflexivity. Qed.
+
+Lemma T_run_iteration fuel finish start_mono sr m :
+  T (Keep P5Idle) (run_iteration fuel finish start_mono sr m) (fun _ => Keep P5Idle).
+Proof.
+  unfold run_iteration.
+  eapply triple_bind with (R := fun _ => Keep P5Idle).
+  { destruct sr; [|apply triple_ret; auto].
+    keepn neutralM_now.
+    match goal with |- T _ (match ?x with Some _ => _ | None => _ end) _ => destruct x end; [|apply triple_ret; auto].
+    match goal with |- T _ (bind (report ?x) _) _ => keepn (neutralM_report x) end.
+    keepn (neutralM_st_write (SRemove K_FINISH_TIME)). keepn (neutralM_st_write (SRemove K_TARGET_VERSION)).
+    keepn (neutralM_st_write SCommit). apply triple_ret. auto. }
+  intro sr'.
+  eapply triple_bind; [apply (neutralM_update_next m (Keep P5Idle))|].
+  { intros q ->. exact I. }
+  intros [m1 t].
+  keepn (neutralM_make_wait t).
+  keepn (neutralM_silent _ (silent_do_outer_select a)).
+  keepn (neutralM_silent _ silent_pop_allowed).
+  rename a1 into dec.
+  eapply triple_bind with
+    (R := fun _ => Keep (match dec with DOk p | DOkDeferred p => P5Check p NoPlan | _ => P5Idle end)).
+  { apply triple_emit. intros q ->. eexists. split; [|reflexivity]. destruct dec; reflexivity. }
+  intro.
+  assert (Hneg : T (Keep P5Idle)
+                   (match a0 with Some (_, id) => emit (AReply id Throttled) | None => ret tt end;;; ret (m1, sr'))
+                   (fun _ => Keep P5Idle)).
+  { eapply triple_bind with (R := fun _ => Keep P5Idle).
+    - destruct a0 as [[s id]|]; [apply (T_keep _ _ (neutralM_emit (AReply id Throttled) (fun q => eq_refl)))|apply triple_ret; auto].
+    - intro. apply triple_ret. auto. }
+  assert (Hpos : forall p, T (Keep (P5Check p NoPlan))
+                   (match a0 with Some (_, id) => emit (AReply id Started) | None => ret tt end;;;
+                    r <- start_update_check fuel p m1;;
+                    (let '(m0, rb) := r in
+                     m2 <- match rb with
+                           | RebootNeeded _ => yield_state WaitingForReboot;;; wait_for_reboot fuel match a0 with Some (s, _) => s | None => ScheduledTask end m0
+                           | RebootNotNeeded => ret m0
+                           end;;
+                     yield_state Idle;;; ret (m2, sr')))
+                   (fun _ => Keep P5Idle)).
+  { intro p.
+    eapply triple_bind with (R := fun _ => Keep (P5Check p NoPlan)).
+    { destruct a0 as [[s id]|]; [apply (T_keep _ _ (neutralM_emit (AReply id Started) (fun q => eq_refl)))|apply triple_ret; auto]. }
+    intro. eapply triple_bind; [apply T_start|]. intros [m2 rb].
+    eapply triple_bind with (R := fun _ q => exists ps, q = P5After ps).
+    { destruct rb as [plan|].
+      - eapply triple_bind with (R := fun _ => Keep (P5Reboot None)).
+        { apply triple_emit. intros q (ps & -> & H). destruct (H plan eq_refl) as [pl ->]. eexists. split; reflexivity. }
+        intro. eapply triple_conseq; [apply T_wait_for_reboot|auto|]. intros x q ->. eexists. reflexivity.
+      - apply triple_ret. intros q (ps & -> & _). eexists. reflexivity. }
+    intro m3.
+    eapply triple_bind with (R := fun _ => Keep P5Idle).
+    { apply triple_emit. intros q [ps ->]. eexists. split; reflexivity. }
+    intro. apply triple_ret. auto. }
+  destruct dec; [apply Hpos|apply Hpos|exact Hneg|exact Hneg|exact Hneg].
+Qed.
+
+Lemma T_run_loop iters : forall fuel finish start_mono sr m,
+  T (Keep P5Idle) (run_loop iters fuel finish start_mono sr m) (fun _ => Keep P5Idle).
+Proof.
+  induction iters as [|k IH]; intros; cbn [run_loop]; [apply triple_halt|].
+  eapply triple_bind; [apply T_run_iteration|]. intros [m' sr']. apply IH.
+Qed.
+
+Lemma T_run iters fuel m : T (Keep P5Idle) (run iters fuel m) (fun _ => Keep P5Idle).
+Proof.
+  unfold run. destruct (negb (forallb app_valid (m_apps m))); [apply triple_ret; auto|].
+  keepn neutralM_now. keepn (neutralM_silent _ (silent_st_get_time K_FINISH_TIME)).
+  keepn (neutralM_silent _ (silent_st_get_str K_TARGET_VERSION)). apply T_run_loop.
+Qed.
+
+Lemma T_oneshot fuel m : T (Keep (P5Check params_default NoPlan)) (oneshot fuel m) (fun _ q => exists ps, q = P5After ps).
+Proof.
+  unfold oneshot. eapply triple_bind; [apply T_start|]. intros r. apply triple_ret. intros q (ps & -> & _). eexists. reflexivity.
+Qed.
+
+(* every trace of the model, for every script, is accepted by the consent monitor *)
+Theorem model_accepted_c05 ep cfg url cup apps e :
+  e_trace e = [] -> accepts step5 (init5 ep) (run_case ep cfg url cup apps e) = true.
+Proof.
+  intro Ht. unfold run_case, accepts.
+  set (m := build cfg url cup apps (e_store e)).
+  destruct ep.
+  - destruct (T_run (Datatypes.S (length (e_stim e))) (4 + length (e_stim e)) m (init5 EStart) e P5Idle) as (q' & Hq' & _).
+    + unfold mst. rewrite Ht. reflexivity.
+    + reflexivity.
+    + destruct (run _ _ m e) as [r e'] eqn:E. cbn [snd] in Hq'. unfold mst in Hq'. rewrite Hq'. reflexivity.
+  - destruct (T_oneshot (4 + length (e_stim e)) m (init5 EOneshot) e (P5Check params_default NoPlan)) as (q' & Hq' & _).
+    + unfold mst. rewrite Ht. reflexivity.
+    + reflexivity.
+    + destruct (oneshot _ m e) as [r e'] eqn:E. cbn [snd] in Hq'. unfold mst in Hq'. rewrite Hq'. reflexivity.
+Qed.
